@@ -83,6 +83,8 @@ type run struct {
 	pendings    []pending
 	snapDone    int
 	snapStarted int
+	failNext    bool
+	abandoned   bool
 	lastSnapIx  int
 	mutOps      int // commits + prune calls, to tell whether something ran concurrently with a snapshot
 	nAcc        int
@@ -114,6 +116,19 @@ func execute(c *simkit.Ctx, bubble bool) bool {
 	r := &run{c: c, bubble: bubble, m: model{}, allRoots: map[string]int{}}
 	if bubble {
 		r.parker = simkit.NewParker()
+		// transient read error seen by one background worker during a CHECKPOINT (armed by a release step): that
+		// checkpoint is abandoned by the code and not judged; every later snapshot/checkpoint must still be complete
+		driver := simkit.GoID()
+		triekit.FailGet = func(key []byte) error {
+			if r.failNext && simkit.GoID() != driver {
+				r.failNext = false
+				r.abandoned = true
+				c.Fault("worker_get_error")
+				return simkit.ErrInjected
+			}
+			return nil
+		}
+		defer func() { triekit.FailGet = nil }()
 	}
 	r.disk, r.ewl = simkit.NewSimDisk("trie", c), simkit.NewSimDisk("ewl", c)
 	if !r.open(nil) {
@@ -191,7 +206,7 @@ func (r *run) applyMutations(st *simkit.Step, m model, bumpNonce bool) bool {
 	adb := r.se.ADB
 	muts := append([]int64(nil), st.I...)
 	if bumpNonce {
-		muts = append(muts, 0, mNonce, 0)
+		muts = append(muts, 7, mNonce, 0) // account 7 is a pure counter: never removed, so no state root value recurs
 	}
 	for j := 0; j+2 < len(muts); j += 3 {
 		ai, kind, arg := int(muts[j]), muts[j+1], muts[j+2]
@@ -413,6 +428,9 @@ func (r *run) step(st *simkit.Step) {
 			return
 		}
 		k := int(st.Int(0, 0)) % len(w)
+		if st.Fault == "get_error" && len(r.pendings) > 0 && r.pendings[0].kind == "checkpoint" {
+			r.failNext = true
+		}
 		lbl := ""
 		for _, x := range w {
 			lbl += x.Label + " "
@@ -631,6 +649,13 @@ func (s snapRaw) RawGet(key []byte) ([]byte, bool) {
 // verifyPendings is the C10 oracle, applied when no worker is active.
 func (r *run) verifyPendings() {
 	if len(r.pendings) == 0 || r.se.TSM.IsPruningBlocked() || len(r.parker.Waiting()) > 0 {
+		return
+	}
+	r.failNext = false
+	if r.abandoned {
+		r.abandoned = false
+		r.pendings = nil
+		r.c.Probe("checkpoint_abandoned_after_read_error")
 		return
 	}
 	for _, p := range r.pendings {
